@@ -2,7 +2,7 @@
 From Coq Require Import String Ascii.
 From Coq Require Import List Arith NArith Lia Bool.
 From Coq Require Import Init.Byte Strings.Byte.
-From Ax Require Import Lib.Bytes Lib.Mvx Model.Check Model.Env Model.TokenManager.
+From Ax Require Import Lib.Bytes Lib.Mvx Model.Check Model.Env Model.TokenManager Model.TMUpgrade.
 Import ListNotations.
 Open Scope N_scope.
 
@@ -16,11 +16,12 @@ Definition tcompare (tracked : list bytes) (pre post : tm) (lpre lpost : ledger)
   + (if sdiff_ok (tm_render pre) (tm_render post) (tx_sd x) then 0 else 8)
   + (if bdiff_ok tracked lpre lpost (tx_bd x) then 0 else 16).
 
-Fixpoint tcheck_steps (tracked : list bytes) (t : tm) (l : ledger) (steps : list (top * texpect)) : list N :=
+(* steps are endpoint operations (inl) or upgrades by the owner (inr, Model/TMUpgrade.v) *)
+Fixpoint tcheck_steps (tracked : list bytes) (t : tm) (l : ledger) (steps : list ((top + tupg) * texpect)) : list N :=
   match steps with
   | [] => []
   | (o, x) :: r =>
-      let '(t', l', out) := tstep t l o in
+      let '(t', l', out) := ustep t l o in
       tcompare tracked t t' l l' out x :: tcheck_steps tracked t' l' r
   end.
 
@@ -29,7 +30,7 @@ Definition empty_tm : tm :=
      tm_limit := 0; tm_in := []; tm_out := []; tm_pending := 0 |}.
 
 Definition tcheck_trace (tracked : list bytes) (l0 : ledger) (self service : bytes) (ty : N) (tid : bytes)
-           (operator token : option bytes) (xinit : texpect) (steps : list (top * texpect)) : list N :=
+           (operator token : option bytes) (xinit : texpect) (steps : list ((top + tupg) * texpect)) : list N :=
   match tm_init self service ty tid operator token with
   | Some (t, e) =>
       tcompare tracked empty_tm t l0 l0 {| to_ok := true; to_rets := []; to_logs := e |} xinit :: tcheck_steps tracked t l0 steps
